@@ -30,6 +30,9 @@ class FlowGen:
 
     def text(self, base):
         rng = self.rng
+        if self.special and rng.random() < 0.08:
+            # nothing a readable row id can be made of (no ASCII letter or digit at all)
+            return rng.choice(["你好！", "日本語のテキスト", "\U0001F600\U0001F600", "¿¡?", "Привет"])
         s = base
         if rng.random() < 0.5:
             # long shared prefixes: readable row ids (first 15 mangled characters) collide across nodes
